@@ -176,7 +176,7 @@ type fileScn struct {
 
 // reloadWatch collects the watcher's reload events per file name.
 type reloadWatch struct {
-	mu   sync.Mutex
+	mu     sync.Mutex
 	ch     map[string]chan string
 	busy   map[string]bool
 	missed int
